@@ -241,7 +241,10 @@ static void one_execution(Trace& T, Rng& g, bool quick)
 		double unit		  = F.cls == "quintic" ? round : 4.0 * std::fabs(eps) + round;
 		errq			  = quant((double)((long double)res - exact), unit);
 	}
-	T.emit({{"e", "Return"}, {"n", (long)xs.size()}, {"warn", warn}, {"zero", res == 0.0}, {"startInb", startInb}, {"swapneg", swapneg},
+	bool allinb = true;
+	for(double x : xs)
+		allinb = allinb && x >= lo && x <= hi;
+	T.emit({{"e", "Return"}, {"n", (long)xs.size()}, {"warn", warn}, {"zero", res == 0.0}, {"startInb", startInb}, {"allinb", allinb}, {"swapneg", swapneg},
 			{"epssame", epssame}, {"cls", F.cls}, {"errq", errq}, {"desc", F.desc}, {"big", big}});
 }
 
